@@ -8,12 +8,15 @@
 (* radius > log distance.  Conjuncts: cacheLatest neverSource onlyKnown onlyCovered atMost8      *)
 (* insideWindow count closestFirst fromTable                                                    *)
 EXTENDS Integers, Sequences, FiniteSets, TLC, Json, SequencesExt
+CONSTANT Devs     \* "AsyncPing" (F-C20-1): two pings of one node are processed in separate goroutines, either may win
 Trace == ndJsonDeserialize("trace.ndjson")
 Window == 32   NClose == 4   NFar == 4
-VARIABLES l, cache, viol
+VARIABLES l, cache, alt, viol
 Failed(r) == {f \in DOMAIN r : ~r[f]}
 GtSmall(r, n) == (\E i \in 1..30 : r[i] # 0) \/ r[31] * 256 + r[32] > n
 Get(c, i) == IF i \in DOMAIN c THEN c[i] ELSE <<>>
+GetAlt(a, i) == IF i \in DOMAIN a THEN a[i] ELSE {}
+IsRace(e) == "race" \in DOMAIN e /\ e.race
 Put(c, i, r) == [j \in DOMAIN c \cup {i} |-> IF j = i THEN r ELSE c[j]]
 Applies(e) == IF e.via = "addenr" THEN e.newentry ELSE e.supported /\ e.decodable /\ e.intable
 SetOf(s) == {s[i] : i \in 1..Len(s)}
@@ -32,7 +35,9 @@ Judge(e) ==
       Mn(a, b) == IF a < b THEN a ELSE b
       out == Cmin \ R IN
   [ cacheLatest  |-> \A j \in N : T[j].i >= 0 =>
-                        (T[j].known <=> Get(cache, T[j].i) # <<>>) /\ (T[j].known => T[j].radius = Get(cache, T[j].i)),
+                        /\ (T[j].known <=> Get(cache, T[j].i) # <<>>)
+                        /\ (T[j].known => \/ T[j].radius = Get(cache, T[j].i)
+                                          \/ ("AsyncPing" \in Devs /\ T[j].radius \in GetAlt(alt, T[j].i))),
     fromTable    |-> Cardinality(R) = Len(e.res) /\ Cardinality(SetOf(e.res)) = Len(e.res),
     neverSource  |-> e.src \notin SetOf(e.res) \/ e.src < 0,
     onlyKnown    |-> \A j \in R : T[j].known,
@@ -43,14 +48,19 @@ Judge(e) ==
     closestFirst |-> out # {} => Cardinality({r \in R : \A c \in out : T[r].ld <= T[c].ld}) >= Mn(NClose, Cardinality(R)),
     noError      |-> ~e.err ]
 
-Init == l = 1 /\ cache = <<>> /\ viol = {}
+Init == l = 1 /\ cache = <<>> /\ alt = <<>> /\ viol = {}
 Next == /\ l <= Len(Trace) /\ l' = l + 1
         /\ LET e == Trace[l] IN
-           CASE e.ev = "g.init" -> cache' = <<>> /\ UNCHANGED viol
-             [] e.ev = "g.deliver" -> cache' = (IF Applies(e) THEN Put(cache, e.n, e.radius) ELSE cache) /\ UNCHANGED viol
-             [] e.ev = "g.gossip" -> viol' = viol \cup {<<l, f>> : f \in Failed(Judge(e))} /\ UNCHANGED cache
-             [] OTHER -> UNCHANGED <<cache, viol>>
-Spec == Init /\ [][Next]_<<l, cache, viol>>
+           CASE e.ev = "g.init" -> cache' = <<>> /\ alt' = <<>> /\ UNCHANGED viol
+             [] e.ev = "g.deliver" ->
+                  /\ cache' = (IF Applies(e) THEN Put(cache, e.n, e.radius) ELSE cache)
+                  \* radii of pings that raced with the latest one remain possible winners until the next ordinary delivery
+                  /\ alt' = (IF ~Applies(e) THEN alt
+                             ELSE IF IsRace(e) THEN Put(alt, e.n, GetAlt(alt, e.n) \cup {e.radius}) ELSE Put(alt, e.n, {}))
+                  /\ UNCHANGED viol
+             [] e.ev = "g.gossip" -> viol' = viol \cup {<<l, f>> : f \in Failed(Judge(e))} /\ UNCHANGED <<cache, alt>>
+             [] OTHER -> UNCHANGED <<cache, alt, viol>>
+Spec == Init /\ [][Next]_<<l, cache, alt, viol>>
 Done == l = Len(Trace) + 1
 Report == Done => PrintT(<<"VIOL", ToJson(viol)>>)
 TraceAccepted == TLCGet("stats").diameter = Len(Trace) + 1
